@@ -2,10 +2,14 @@
 (* G1 generator for C13 (run together with the T1 invariants of MCSubst):   *)
 (* writes the world (IOEnv.DESC, one JSON record) and the groups of         *)
 (* SubstCases (IOEnv.OUT, ndjson of [e, ms]: an expression and the maps it  *)
-(* is paired with) and prints how many cases carry each feature (vacuity    *)
-(* guard of the driver).                                                    *)
+(* is paired with) and prints how many cases (of 1 in FS groups) carry each *)
+(* feature (vacuity guard of the driver).                                   *)
 EXTENDS MCSubst, Json, IOUtils
-Feats == TLCEval([i \in DOMAIN Groups |-> [j \in DOMAIN Groups[i].ms |-> Feature([e |-> Groups[i].e, m |-> Groups[i].ms[j]])]])
+CONSTANT FS  \* the feature census looks at 1 in FS groups
+\* features of the cases of 1 in FS groups (inner functions forced: TLC's function values are lazy)
+Feats == TLCEval([i \in DOMAIN Groups |->
+            IF i % FS = 0 THEN TLCEval([j \in DOMAIN Groups[i].ms |-> Feature([e |-> Groups[i].e, m |-> Groups[i].ms[j]])])
+            ELSE <<>>])
 Count(f) == SumRange([i \in DOMAIN Feats |-> Cardinality({j \in DOMAIN Feats[i] : Feats[i][j] = f})], 1, Len(Feats))
 Verdicts == {"accept", "reject", "either"}
 Kinds == {"key-has-bound-var", "nested-keys", "key-in-value", "compound-key", "leaf-key", "no-occurrence"}
